@@ -20,7 +20,7 @@ import (
 // the handler is then shown are forwarded one by one; after an event that carries the stage the caller waits for,
 // or a final state, the handler must return and not come back for more - decided without a clock by offering it
 // a duplicate of that event.
-func c08Run(c *fw.Case, kind string, sync bool, k int, offline bool) {
+func c08Run(c *fw.Case, kind string, sync bool, k int, offline bool, inWatch bool) {
 	p := &engine.Profile{Targets: []string{"t1", "t2"}}
 	opts := world.Options{Targets: p.Targets}
 	w, err := world.New(opts)
@@ -45,17 +45,33 @@ func c08Run(c *fw.Case, kind string, sync bool, k int, offline bool) {
 	var probeName string
 	var violated int32
 	var cameBack int32
-	w.SetHandlerWatch(func(ctx context.Context, ch chan<- configapi.TransactionEvent, call func(chan<- configapi.TransactionEvent) error) error {
-		if world.CurrentTask() != probeName {
-			return call(ch)
-		}
-		// hold the handler until the controllers are k effects further (or idle)
+	hold := func(counter string) {
 		target := w.Effects() + int64(k)
 		deadline := time.Now().Add(20 * time.Second)
 		for w.Effects() < target && w.SinceLastChange() < 1500*time.Millisecond && time.Now().Before(deadline) {
 			time.Sleep(200 * time.Microsecond)
 		}
-		c.Count("effects_between_create_and_watch", w.Effects()-(target-int64(k)))
+		c.Count(counter, w.Effects()-(target-int64(k)))
+	}
+	// second placement of the hold: inside the store's Watch, right after its replay read of the transaction (the
+	// first IndexedMap/Get that a store-internal goroutine issues once the probe call is on its way)
+	var armed int32
+	if inWatch {
+		w.SetStoreRPCHook(func(method string) {
+			if strings.HasSuffix(method, "IndexedMap/Get") && atomic.CompareAndSwapInt32(&armed, 1, 0) {
+				c.Count("watches_held_after_replay_read", 1)
+				hold("effects_between_replay_read_and_next_step_of_watch")
+			}
+		})
+	}
+	w.SetHandlerWatch(func(ctx context.Context, ch chan<- configapi.TransactionEvent, call func(chan<- configapi.TransactionEvent) error) error {
+		if world.CurrentTask() != probeName {
+			return call(ch)
+		}
+		// hold the handler until the controllers are k effects further (or idle)
+		if !inWatch {
+			hold("effects_between_create_and_watch")
+		}
 		mid := make(chan configapi.TransactionEvent)
 		if err := call(mid); err != nil {
 			return err
@@ -88,6 +104,7 @@ func c08Run(c *fw.Case, kind string, sync bool, k int, offline bool) {
 		return nil
 	})
 	var call *engine.Call
+	atomic.StoreInt32(&armed, 1)
 	switch kind {
 	case "ok":
 		call = e.IssueSet([]refmodel.Op{up("t1", "/goo", "v2"), up("t2", "/goo", "v2")}, sync)
@@ -120,8 +137,8 @@ func c08Run(c *fw.Case, kind string, sync bool, k int, offline bool) {
 		dumpWorld(c, e)
 		c.Violate("answer", "answer/kept-waiting-after-awaited-state", fmt.Sprintf("%s consumed the event carrying the state it waits for (or a final state) and came back for more events: it would wait for ever", call.Name()), nil)
 	}
-	c.Class(fmt.Sprintf("%s sync=%v offline=%v", kind, sync, offline))
-	c.Distinct("placement", fmt.Sprintf("%s/%v/%v/%d", kind, sync, offline, k))
+	c.Class(fmt.Sprintf("%s sync=%v offline=%v in-watch=%v", kind, sync, offline, inWatch))
+	c.Distinct("placement", fmt.Sprintf("%s/%v/%v/%d/%v", kind, sync, offline, k, inWatch))
 	c.Count("probed_calls", 1)
 	if call.HasReturned() {
 		c.Count("probed_calls_answered", 1)
@@ -135,6 +152,7 @@ func init() {
 		sync    bool
 		k       int
 		offline bool
+		inWatch bool
 	}
 	build := func(maxK, step int) []placement {
 		var ps []placement
@@ -144,23 +162,36 @@ func init() {
 					continue // rollbacks are always synchronous
 				}
 				for k := 0; k <= maxK; k += step {
-					ps = append(ps, placement{kd, sy, k, false})
+					ps = append(ps, placement{kd, sy, k, false, false})
 				}
 			}
 		}
 		// asynchronous requests against an offline target are answered at COMMITTED
 		for k := 0; k <= maxK; k += step * 2 {
-			ps = append(ps, placement{"single", false, k, true})
+			ps = append(ps, placement{"single", false, k, true, false})
+		}
+		// the hold inside Watch, after its replay read
+		for _, kd := range kinds {
+			for _, sy := range []bool{false, true} {
+				if strings.HasPrefix(kd, "roll") && !sy {
+					continue
+				}
+				for _, k := range []int{2, 6, 12, 20, 30, 45, 60} {
+					if k <= maxK {
+						ps = append(ps, placement{kd, sy, k, false, true})
+					}
+				}
+			}
 		}
 		return ps
 	}
 	quick := build(60, 2)
 	thorough := build(90, 1)
 	fw.Register(&fw.Check{ID: "C08", Level: "exploration",
-		Technique:   "runtime monitoring with injected delays: the handler is held between Create and Watch until the controllers have performed k more persisted effects, k enumerated; clock-free duplicate-event probe decides 'keeps waiting'; responses and error classes vs the sequential model; OK answers ordered against the transaction's writes in the event log",
-		Rule:        "placements = request kind {multi-target ok, single ok, validation failure, device refusal, rollback of latest / older / unknown index} x sync/async x k = 0,2,..,60 effects between the handler's Create and Watch (thorough: every k up to 90) + offline-target async; distinct_nontrivial = distinct placements executed",
+		Technique:   "runtime monitoring with injected delays: the handler is held between Create and Watch - and, in a second family of placements, the store's Watch is held right after its replay read of the transaction - until the controllers have performed k more persisted effects, k enumerated; clock-free duplicate-event probe decides 'keeps waiting'; responses and error classes vs the sequential model; OK answers ordered against the transaction's writes in the event log",
+		Rule:        "placements = request kind {multi-target ok, single ok, validation failure, device refusal, rollback of latest / older / unknown index} x sync/async x k = 0,2,..,60 effects between the handler's Create and Watch (thorough: every k up to 90) + offline-target async + the same kinds with the hold inside Watch after its replay read for k in {2,6,12,20,30,45,60}; distinct_nontrivial = distinct placements executed",
 		Assumptions: s2Assumptions, DistinctSet: "placement", CaseTimeout: 300e9,
-		Floors: map[string]int64{"probed_calls_answered": 300, "handlers_shown_awaited_state": 300, "ok_answers_ordered_against_stage": 400},
+		Floors: map[string]int64{"watches_held_after_replay_read": 50, "probed_calls_answered": 300, "handlers_shown_awaited_state": 300, "ok_answers_ordered_against_stage": 400},
 		Cases: func(tier string) int {
 			if tier == "thorough" {
 				return len(thorough) * 3
@@ -173,6 +204,6 @@ func init() {
 				ps = thorough
 			}
 			pl := ps[c.Index%len(ps)]
-			c08Run(c, pl.kind, pl.sync, pl.k, pl.offline)
+			c08Run(c, pl.kind, pl.sync, pl.k, pl.offline, pl.inWatch)
 		}})
 }
